@@ -26,6 +26,17 @@ pub mod c19;
 pub mod c09;
 pub mod c34;
 pub mod formula_gen;
+pub mod c12;
+pub mod c13;
+pub mod c14;
+pub mod geom;
+pub mod c10;
+pub mod c17;
+pub mod c32;
+pub mod c15;
+pub mod c16;
+pub mod c33;
+pub mod geom2;
 
 pub fn registry() -> Vec<Prop> {
     vec![
@@ -46,5 +57,14 @@ pub fn registry() -> Vec<Prop> {
         Prop { id: "C19", run: c19::run, replay: c19::replay },
         Prop { id: "C09", run: c09::run, replay: c09::replay },
         Prop { id: "C34", run: c34::run, replay: c34::replay },
+        Prop { id: "C12", run: c12::run, replay: c12::replay },
+        Prop { id: "C13", run: c13::run, replay: c13::replay },
+        Prop { id: "C14", run: c14::run, replay: c14::replay },
+        Prop { id: "C10", run: c10::run, replay: c10::replay },
+        Prop { id: "C17", run: c17::run, replay: c17::replay },
+        Prop { id: "C32", run: c32::run, replay: c32::replay },
+        Prop { id: "C15", run: c15::run, replay: c15::replay },
+        Prop { id: "C16", run: c16::run, replay: c16::replay },
+        Prop { id: "C33", run: c33::run, replay: c33::replay },
     ]
 }
